@@ -26,6 +26,7 @@ type lat struct {
 	NoVerOut bool // GossipVerifyOutgoing=false
 	NoVerIn  bool // GossipVerifyIncoming=false
 	UDPBuf   int
+	LateKey  bool // keyring configured empty at creation; the key is installed afterwards
 }
 
 func (l lat) String() string {
@@ -33,7 +34,7 @@ func (l lat) String() string {
 	if l.Label != "" {
 		lb = fmt.Sprintf("%dB", len(l.Label))
 	}
-	return fmt.Sprintf("enc=%s/%d comp=%v label=%s pmax=%d newtime=%v ipnames=%v verout=%v verin=%v buf=%d", l.Enc, l.KeyLen, l.Comp, lb, l.PeerPMax, l.NewTime, l.IPNames, !l.NoVerOut, !l.NoVerIn, l.UDPBuf)
+	return fmt.Sprintf("enc=%s/%d comp=%v label=%s pmax=%d newtime=%v ipnames=%v verout=%v verin=%v buf=%d latekey=%v", l.Enc, l.KeyLen, l.Comp, lb, l.PeerPMax, l.NewTime, l.IPNames, !l.NoVerOut, !l.NoVerIn, l.UDPBuf, l.LateKey)
 }
 
 func latKey(n int) []byte { return bytes.Repeat([]byte{0x5a}, n) }
@@ -44,6 +45,9 @@ func (l lat) apply(c *ml.Config) {
 	c.MsgpackUseNewTimeFormat = l.NewTime
 	if l.Enc != "off" {
 		kr, err := ml.NewKeyring(nil, latKey(l.KeyLen))
+		if l.LateKey {
+			kr, err = ml.NewKeyring(nil, nil)
+		}
 		must(err)
 		c.Keyring = kr
 		if l.Enc == "v0" {
@@ -109,6 +113,10 @@ func newPairOpt(b *bubble, l lat, intro bool, more ...func(name string, c *ml.Co
 	}
 	p.s = mk(sn, ip4(1))
 	p.r = mk(rn, ip4(2))
+	if l.LateKey && l.Enc != "off" {
+		must(p.s.Cfg.Keyring.AddKey(latKey(l.KeyLen)))
+		must(p.r.Cfg.Keyring.AddKey(latKey(l.KeyLen)))
+	}
 	p.wire(b, p.s, p.r)
 	p.wire(b, p.r, p.s)
 	advance(time.Microsecond)
